@@ -8,8 +8,8 @@ connection (n = 0, 1, ...) is treated according to plan[n]:
                              sides are closed (the daemon sees a short header/body and processes nothing)
     ("L", k)                 reply lost: the daemon's complete reply is read (its send succeeded), only the first
                              k bytes are passed on to the client, then the connection is closed
-    ("S", 0)                 reply send failed: the full request is forwarded and the daemon-side socket is closed
-                             at once, so that the daemon's m_msg_send fails (EPIPE) and it rolls back
+    ("S", 0)                 reply send failed: the daemon-side socket is shut down for reading before the full request
+                             is forwarded, so that the daemon's m_msg_send fails (EPIPE) and it rolls back
 Connections beyond the plan are clean.  One connection at a time (libmunge is sequential)."""
 import os, socket, struct, threading
 
@@ -106,8 +106,13 @@ class FaultProxy:
                 self.log.append(("Q", k, len(req)))
                 return
             if f and f[0] == "S":
+                # the daemon-side socket refuses incoming data from the start, so the daemon's write of the reply fails
+                # (EPIPE) however fast it is; closing only afterwards would race with the reply
+                d.shutdown(socket.SHUT_RD)
                 d.sendall(req)
-                d.close()                 # before the daemon can write its reply
+                import time as _t
+                _t.sleep(0.05)
+                d.close()
                 self.log.append(("S", len(req)))
                 return
             d.sendall(req)
